@@ -92,8 +92,17 @@ def main():
         r['neg_op'] = guard(lambda: tree(-s))
         r['negate'] = guard(lambda: tree(s.negate()))
         r['inv_op'] = guard(lambda: tree(~s))
-        r['subst'] = [guard(lambda: tree(s.substitute(build_param(n), build_param(o))))
-                      for n, o in c.get('pairs', ())]
+        r['subst'] = []
+        r['subst_attrs'] = []
+        for n, o in c.get('pairs', ()):
+            # the receiver's derived attributes have been read (above): the result must compute its own
+            t = guard(lambda: s.substitute(build_param(n), build_param(o)))
+            if isinstance(t, dict):
+                r['subst'].append(t)
+                r['subst_attrs'].append(None)
+            else:
+                r['subst'].append(guard(lambda: tree(t)))
+                r['subst_attrs'].append(attrs(t))
         r['unq'] = [guard(lambda: tree(s.unquantify(build_param(k)))) for k in c.get('unq', ())]
         r['rshift'] = [guard(lambda: tree(build_param(k) >> s)) for k in c.get('unq', ())]
         r['attrs_after'] = attrs(s)       # lazily cached values must not drift
